@@ -759,7 +759,11 @@ class NPModel(NSModel):
         if not isinstance(v, np.ndarray):
             v = as_exact(v)
         if isinstance(v, MaskedSel):
-            raise I.Unsupported("assignment from a symbolically masked selection")
+            if not sym or isinstance(idx, tuple) or not MaskedSel.same_mask(idx, v.idx) or base.dtype != object:
+                raise I.Unsupported("assignment from a symbolically masked selection through a different mask")
+            full = v.base if isinstance(v.base, np.ndarray) else np.broadcast_to(np.asarray(v.base, dtype=object), base.shape)
+            base[...] = I.elementwise(lambda c, new, old: t_ite(c, new, old), idx, full, base)
+            return
         if base.dtype != object:
             if isinstance(v, (T, Q)) or (isinstance(v, np.ndarray) and v.dtype == object):
                 cv = None
@@ -884,14 +888,36 @@ class NPModel(NSModel):
 
 
 class MaskedSel(object):
-    """base[mask] with a symbolic mask: only reductions are supported."""
+    """base[mask] with a symbolic boolean mask.  The selection is kept as (full array, mask): elementwise arithmetic
+    stays a MaskedSel over the same mask, and `x[mask] = sel` becomes ite(mask, sel.full, x) element by element."""
 
     def __init__(self, base, idx):
         self.base = base
         self.idx = idx
 
+    @staticmethod
+    def same_mask(m1, m2):
+        return isinstance(m1, np.ndarray) and isinstance(m2, np.ndarray) and m1.shape == m2.shape and all(
+            x is y for x, y in zip(m1.reshape(-1), m2.reshape(-1)))
+
+    @staticmethod
+    def combine(interp, k, a, b):
+        I = _imp()
+        ms = [x for x in (a, b) if isinstance(x, MaskedSel)]
+        if any(isinstance(m.idx, tuple) for m in ms):
+            raise I.Unsupported("arithmetic on a tuple-indexed masked selection")
+        if len(ms) == 2 and not MaskedSel.same_mask(ms[0].idx, ms[1].idx):
+            raise I.Unsupported("arithmetic on selections through different symbolic masks")
+        fa = a.base if isinstance(a, MaskedSel) else a
+        fb = b.base if isinstance(b, MaskedSel) else b
+        for x in (fa, fb):
+            if isinstance(x, np.ndarray) and x.ndim > 0 and x.shape != ms[0].base.shape and not isinstance(x, MaskedSel):
+                raise I.Unsupported("masked selection combined with an array of another shape")
+        return MaskedSel(interp.binop(_BINOPS[k], fa, fb), ms[0].idx)
+
 
 import ast as _ast
+_BINOPS = {n: getattr(_ast, n)() for n in ("Add", "Sub", "Mult", "Div", "Pow", "Mod", "FloorDiv", "BitAnd", "BitOr", "BitXor")}
 _OP = {"Lt": _ast.Lt(), "LtE": _ast.LtE(), "Gt": _ast.Gt(), "GtE": _ast.GtE(), "Eq": _ast.Eq(), "NotEq": _ast.NotEq()}
 
 
